@@ -193,6 +193,35 @@ func loadSources() {
 				sources = append(sources, docSrc{name: "type:" + pubschema.ShortID(id), json: raw})
 			}
 		}
+		// a document larger than any buffer an entry point reads its input with
+		// (about 400 lines, well over 64 KB): built from the first Spanish invoice
+		for _, d := range corpus.MustLoad() {
+			if d.IsEnv || d.ShortSch != "bill/invoice" || d.Regime != "ES" && !strings.Contains(d.Path, "/es/") {
+				continue
+			}
+			tree, err := jsontree.Decode(d.JSON)
+			if err != nil {
+				continue
+			}
+			lines, ok := jsontree.Get(tree, "/lines")
+			arr, isArr := lines.([]any)
+			if !ok || !isArr || len(arr) == 0 {
+				continue
+			}
+			var many []any
+			for i := 0; i < 400; i++ {
+				many = append(many, jsontree.Clone(arr[i%len(arr)]))
+			}
+			if t2, err := jsontree.Set(tree, "/lines", many); err == nil {
+				big := jsontree.Encode(t2)
+				if len(big) > 70_000 {
+					// kept apart from the pool the random workloads draw from (it is
+					// slow to handle): used by large_inputs only
+					largeSources = append(largeSources, docSrc{name: d.Path + "+400-lines", json: big})
+					break
+				}
+			}
+		}
 		seenRegime := map[string]bool{}
 		for _, d := range corpus.MustLoad() {
 			if d.IsEnv {
@@ -338,11 +367,18 @@ type Task struct {
 	Op  string `json:"op"`
 }
 
+var largeSources []docSrc
+
 func srcByName(n string) *docSrc {
 	loadSources()
 	for i := range sources {
 		if sources[i].name == n {
 			return &sources[i]
+		}
+	}
+	for i := range largeSources {
+		if largeSources[i].name == n {
+			return &largeSources[i]
 		}
 	}
 	return nil
@@ -767,6 +803,13 @@ func judgeBulk(c BulkCase, o *vh.Obs) {
 		} else {
 			got = stable(compact(res.Payload))
 		}
+		if req.Action == "build" && !res.failed() && req.Raw == "" && !req.Built {
+			// what the library builds from the same source, without any entry point in between
+			if lib, ok := libBuild(srcByName(req.Doc)); ok && lib != got {
+				o.Failf("bulk:payload-differs-from-library:build", "request %d (build of %s): the payload differs from what the library builds from the same source: %.200s vs %.200s", res.SeqID, req.Doc, got, lib)
+				return
+			}
+		}
 		if req.Action != "keygen" && got != wantPayload {
 			o.Failf("bulk:payload:"+req.Action, "request %d (%s): payload in the stream differs from the standalone operation: %.200s vs %.200s", res.SeqID, req.Action, got, wantPayload)
 			return
@@ -783,6 +826,31 @@ func judgeBulk(c BulkCase, o *vh.Obs) {
 		o.Failf("race:"+raceSite(rep), "the race detector reported:\n%.1500s", rep)
 	}
 	o.Note("%d requests, inverted=%v", n, inverted)
+}
+
+// libBuild envelops and calculates a source through the library alone.
+func libBuild(src *docSrc) (string, bool) {
+	if src == nil {
+		return "", false
+	}
+	env, err := corpus.EnvelopeOf(src.json, false)
+	if err != nil {
+		return "", false
+	}
+	if env.Validate() != nil {
+		return "", false
+	}
+	// a bare document comes back as a document, an envelope as an envelope
+	var out []byte
+	if bytes.Contains(src.json[:min(len(src.json), 200)], []byte(`draft-0/envelope"`)) {
+		out, err = json.Marshal(env)
+	} else {
+		out, err = json.Marshal(env.Document)
+	}
+	if err != nil {
+		return "", false
+	}
+	return stable(compact(out)), true
 }
 
 func okText(ok bool) string {
@@ -831,7 +899,7 @@ func genBulk(t *rapid.T) BulkCase {
 func init() {
 	vh.OnExit(goblexec.Stop)
 	vh.Describe(
-		"Workload plans: 8-60 tasks (operation in {parse, calculate, validate, sign+verify, correct, correct of the signed and stamped envelope with option values shared by all goroutines, replicate, options-schema} on a document) over a small pool of documents drawn from every example, legacy variants of the examples (shapes migrated on load), one all-members document per published object type, plus cross pairs (one invoice per regime listing each registered addon), run by 2-16 goroutines behind a start barrier with GOMAXPROCS in {1,2,4,16} and optional yields; plus a sweep running every document x {calculate, validate, correct, options-schema}; plus, for every ordered pair of registered addons (on an example invoice of either addon's home regime and of ES), the sequence probes - pair - probes, where the probes are the base invoice and the invoice with either addon alone (calculate / validate / correct) and the pair is the invoice listing both addons (five operations): the probes must give the same results before and after (state outside the registries: package-level tables, caches). Cold start: a fresh child process of the same -race binary handles every source document for the first time from 8 goroutines at once (calculate / correct / validate / options-schema twice each), with no sequential pass before it - this is when lazily built and migration tables are written; the goroutines must agree and the detector must stay silent (on a failure the document list is halved until it no longer fails). Oracles: (1) the race detector (binary built with -race; reports are read from the detector's log), (2) every task's result equals the sequential baseline (identifiers, digests, dates and signatures masked), (3) a deep fingerprint of every registered regime / addon / catalogue / extension / currency definition - including the spare capacity of slices - is identical before and after. Bulk streams: 1-14 mixed requests (ping, sleep with skewed latencies, build from the source, validate / correct / replicate of the source or of the calculated envelope, sign with the default or an explicit private key, verify of a pre-signed envelope with the right, another or no public key, schema, regime, schemas, unknown action, malformed payloads, duplicate and empty req_ids, streams ending in garbage) through cli.Bulk in process and POST /bulk of a -race build of gobl serve: one response per request with its req_id and 1-based seq_id, payload equal to the standalone operation, exactly one final marker, last, with seq_id n+1. Non-trivial: >= 2 goroutines, or >= 2 requests in flight. type_terms: every way of naming every published type (complete identifier, short path, last segment, Go type name with and without package, lower case) is resolved 64 times by cli.FindType and must name the same type each time (a complete identifier itself); a bulk stream of six build requests naming their type that way must be answered exactly like the request on its own. Non-trivial: the term fits several published types.",
+		"Workload plans: 8-60 tasks (operation in {parse, calculate, validate, sign+verify, correct, correct of the signed and stamped envelope with option values shared by all goroutines, replicate, options-schema} on a document) over a small pool of documents drawn from every example, legacy variants of the examples (shapes migrated on load), one all-members document per published object type, plus cross pairs (one invoice per regime listing each registered addon), run by 2-16 goroutines behind a start barrier with GOMAXPROCS in {1,2,4,16} and optional yields; plus a sweep running every document x {calculate, validate, correct, options-schema}; plus, for every ordered pair of registered addons (on an example invoice of either addon's home regime and of ES), the sequence probes - pair - probes, where the probes are the base invoice and the invoice with either addon alone (calculate / validate / correct) and the pair is the invoice listing both addons (five operations): the probes must give the same results before and after (state outside the registries: package-level tables, caches). Cold start: a fresh child process of the same -race binary handles every source document for the first time from 8 goroutines at once (calculate / correct / validate / options-schema twice each), with no sequential pass before it - this is when lazily built and migration tables are written; the goroutines must agree and the detector must stay silent (on a failure the document list is halved until it no longer fails). Oracles: (1) the race detector (binary built with -race; reports are read from the detector's log), (2) every task's result equals the sequential baseline (identifiers, digests, dates and signatures masked), (3) a deep fingerprint of every registered regime / addon / catalogue / extension / currency definition - including the spare capacity of slices - is identical before and after. Bulk streams: 1-14 mixed requests (ping, sleep with skewed latencies, build from the source, validate / correct / replicate of the source or of the calculated envelope, sign with the default or an explicit private key, verify of a pre-signed envelope with the right, another or no public key, schema, regime, schemas, unknown action, malformed payloads, duplicate and empty req_ids, streams ending in garbage) through cli.Bulk in process and POST /bulk of a -race build of gobl serve: one response per request with its req_id and 1-based seq_id, payload equal to the standalone operation, exactly one final marker, last, with seq_id n+1. Non-trivial: >= 2 goroutines, or >= 2 requests in flight. type_terms: every way of naming every published type (complete identifier, short path, last segment, Go type name with and without package, lower case) is resolved 64 times by cli.FindType and must name the same type each time (a complete identifier itself); a bulk stream of six build requests naming their type that way must be answered exactly like the request on its own. Non-trivial: the term fits several published types. large_inputs: a source of about 400 lines (over 64 KB, more than the entry points read at once) in bulk streams next to small ones and through cli.Build from four goroutines; bulk build payloads are also compared with what the library builds from the same source.",
 		"schedule exploration is randomised stress: the race detector can miss a race; the definition fingerprint cannot miss a write the workload triggers",
 		"identifiers, digests, dates and signatures are masked when comparing results",
 	)
@@ -844,6 +912,7 @@ func init() {
 	vh.Enum("sweep", enumSweep, judgePlan)
 	vh.Enum("order_dependence", enumOrder, judgeOrder)
 	vh.Enum("type_terms", enumTerms, judgeTerm)
+	vh.Enum("large_inputs", enumLarge, judgeLarge)
 	vh.Rapid("plans", 60, 2_400, genPlan, judgePlan)
 	vh.Rapid("bulk", 120, 6_000, genBulk, judgeBulk)
 }
